@@ -105,6 +105,38 @@ def heuristicDirect (s : Sess) (m : HMatch) (e : HEdit) : Sess × Bool :=
       let op : EOp := if ft.isEmpty then .insertion else if fn.isEmpty then .deletion else .modification
       applyIndexed s m.clean (m.start + pq.1) ft.length fn e.comment (some op)
 
+/-- the match lies (with its first real span) in a pending insertion: the edit is rewritten as a replacement of
+that whole insertion, addressed in raw coordinates; `none` when this does not apply -/
+def nestedProxy (s : Sess) (m : HMatch) (e : HEdit) : Option (Sess × Bool) :=
+  let raw := s.spans false
+  let act := s.spans m.clean
+  match (contextSpan act m.start (m.start + m.len)).bind (·.sp.insId) with
+  | some id =>
+    let insSp := act.filter fun o => o.sp.insId == some id
+    let rawIns := raw.filter fun o => o.sp.insId == some id
+    match insSp.head?, rawIns.head? with
+    | some i0, some r0 =>
+      let full := ospansText insSp
+      let rel := m.start - i0.start
+      let expanded := full.take rel ++ e.new ++ full.drop (rel + m.len)
+      some (applyIndexed s false r0.start full.length expanded e.comment none)
+    | _, _ => none
+  | none => none
+
+/-- what `_apply_single_edit_heuristic` does once the match is accepted -/
+def heuristicApplyAt (s : Sess) (m : HMatch) (e : HEdit) : Sess × Bool :=
+  match nestedProxy s m e with
+  | some r => r
+  | none => heuristicDirect s m e
+
+/-- the matched range in raw coordinates (`_to_raw_range`) -/
+def matchRawRange (s : Sess) (m : HMatch) : Option (Nat × Nat) :=
+  if m.clean then toRawRange (s.spans false) (s.spans true) m.start (m.start + m.len)
+  else some (m.start, m.start + m.len)
+
+def conflicts (occ : List (Nat × Nat)) (rr : Option (Nat × Nat)) : Bool :=
+  match rr with | some (a, b) => overlapsAny occ a b | none => false
+
 /-- `_apply_single_edit_heuristic`: (session, applied?, matched range in raw coordinates) -/
 def applyHeuristic (s : Sess) (occ : List (Nat × Nat)) (e : HEdit) : Sess × Bool × Option (Nat × Nat) :=
   if e.target.isEmpty then (s, false, none)
@@ -112,31 +144,10 @@ def applyHeuristic (s : Sess) (occ : List (Nat × Nat)) (e : HEdit) : Sess × Bo
     match locate s e with
     | none => (s, false, none)
     | some m =>
-      let raw := s.spans false
-      let act := s.spans m.clean
-      let stop := m.start + m.len
-      let rawRange := if m.clean then toRawRange raw act m.start stop else some (m.start, stop)
-      let conflict := match rawRange with | some (a, b) => overlapsAny occ a b | none => false
-      if conflict then (s, false, none)
+      if conflicts occ (matchRawRange s m) then (s, false, none)
       else
-        let nested : Option (Sess × Bool) :=
-          match (contextSpan act m.start stop).bind (·.sp.insId) with
-          | some id =>
-            let insSp := act.filter fun o => o.sp.insId == some id
-            let rawIns := raw.filter fun o => o.sp.insId == some id
-            match insSp.head?, rawIns.head? with
-            | some i0, some r0 =>
-              let full := ospansText insSp
-              let rel := m.start - i0.start
-              let expanded := full.take rel ++ e.new ++ full.drop (rel + m.len)
-              some (applyIndexed s false r0.start full.length expanded e.comment none)
-            | _, _ => none
-          | none => none
-        match nested with
-        | some (s', ok) => (s', ok, rawRange)
-        | none =>
-          let (s', ok) := heuristicDirect s m e
-          (s', ok, rawRange)
+        let r := heuristicApplyAt s m e
+        (r.1, r.2, matchRawRange s m)
 
 /-- `_ranges_after_edit` -/
 def rangesAfterEdit (ranges : List (Nat × Nat)) (matched : Option (Nat × Nat)) (before after : Str) :
